@@ -134,6 +134,21 @@ add("C02", K1, K1_WHAT, "K1",
          "shared_member_source"))
 
 
+# ---- C03
+add("C03", "C03-cell-read-and-its-data-source-both-locked-to-red",
+    "`m.write(v, when=c); Signal d = v - m.read();` with v on the cell's own signal type (the \"has the value changed\" "
+    "idiom): the memory module locks the cell's output and every source of its data input to the red wire, so the "
+    "subtraction receives both same-named operands on red and computes (v+m) - (v+m); one (source, signal) node has one "
+    "colour, so the planner cannot put v's wire to the subtraction on green; it records the unresolved conflict and goes on",
+    "plan_wire_colors reports an unresolved conflict (coloring_ok false), the program has one operation whose two "
+    "operands are a cell's read and a bare same-typed signal stored by that cell's write()",
+    case([["input", "d0", "signal-speed", 7], ["input", "e0", "concrete", 1], ["mem", "m0", "signal-speed"],
+          ["write", "m0", ["v", "d0"], ["c", ">", ["v", "e0"], ["n", 0]]],
+          ["sig", "r0", ["p", ["b", "-", ["v", "d0"], ["r", "m0"]], "engine-unit"]],
+          ["sig", "r1", ["p", ["r", "m0"], "signal-hourglass"]]],
+         "data_meets_read", hseed=1, nhist=3, nsteps=16, edges={"d0": [0, 1, -1, 5, -7, 100], "e0": [0, 1, 1, 0, 2]}))
+
+
 # ---- C04
 add("C04", K1, K1_WHAT, "K1",
     dict(case([["input", "h0", "signal-left-parenthesis", 4], ["mem", "m0", "processing-unit"],
